@@ -172,11 +172,15 @@ func (ip *Interp) Exec(line string) ([]string, error) {
 		if err := ip.number(n); err != nil {
 			return nil, err
 		}
-		ms, err := script.ParseMsgs(toks[2:])
+		vote, rest := "yes", toks[2:]
+		if strings.HasPrefix(rest[0], "vote=") { // how the only validator votes (default yes); anything else rejects the proposal
+			vote, rest = rest[0][5:], rest[1:]
+		}
+		ms, err := script.ParseMsgs(rest)
 		if err != nil {
 			return nil, err
 		}
-		return nil, ip.R.GovExec(n, ms)
+		return nil, ip.R.GovExec(n, vote, ms)
 	case "END":
 		if err := want(phBlock, 1); err != nil {
 			return nil, err
